@@ -298,8 +298,11 @@ fn create_semantic_token(
     token_modifier: u32,
 ) -> SemanticToken {
     let Position { line, character } = as_position(token.range.start, text);
+    // The range of a comment token includes the line break that ends it,
+    // but a semantic token must not reach beyond the end of its line.
     // LSP lengths are counted in UTF-16 code units
     let length = text[token.range.clone()]
+        .trim_end_matches(['\r', '\n'])
         .encode_utf16()
         .count()
         .try_into()
